@@ -1952,6 +1952,17 @@ class Tensor:
         self.data.shape = newshape
         self.data.shape = old_shape
 
+        # As with any other in-place operation: the gradients held by this tensor
+        # and by its views are invalidated, and a tensor whose graph was cleared
+        # no longer is a view of its lingering base
+        # (placeholders cannot be created for tensors that hold a gradient)
+        self.null_grad(_clear_view_info=True)
+        _family = list(self._view_children)
+        while _family:
+            _member = _family.pop()
+            _member.null_grad()
+            _family.extend(_member._view_children)
+
         # create placeholders for self and all of its view-children
         graph = _dup.DuplicatingGraph(self)
         # need to iterate over all nodes now before we tinker
